@@ -11,14 +11,28 @@ Definition app_op (subs : list op) (o : option op) : list op :=
 
 (* what user code sees: read_text hands out the content, not the comparison
    result that is recorded *)
+Definition query_path (q : query) : path :=
+  match q with
+  | QExists p | QIsFile p | QIsDir p | QListDir p | QWalk p _ | QGetSize p | QRead p _ => p
+  end.
+
+(* Which OSError subclass a query raises for a path with an over-long component
+   is left unspecified (observed as plain OSError on every side). *)
+Definition canon_err (q : query) (r : outcome) : outcome :=
+  match r with
+  | inr (XOS _) => if path_ok (query_path q) then r else inr (XOS XOSError)
+  | _ => r
+  end.
+
 Definition user_answer (q : query) (r : outcome) (w : world) : outcome :=
-  match q, r with
+  let r' := canon_err q r in
+  match q, r' with
   | QRead p _, inl _ =>
       match lookup (w_fs w) p with
       | Some (NFile f) => inl (PStr (f_bytes f))
-      | _ => r
+      | _ => r'
       end
-  | _, _ => r
+  | _, _ => r'
   end.
 
 Definition log_answer (q : query) (r : outcome) (w : world) : world :=
